@@ -134,7 +134,12 @@ func (v *Vue) Render(w io.Writer, filename string, data any) error {
 	}
 
 	// Merge front-matter data into the provided data (front-matter is authoritative)
-	dataMap := toMapData(data)
+	// Merge into a fresh map: the caller's data must not be modified.
+	passed := toMapData(data)
+	dataMap := make(map[string]any, len(passed)+len(frontMatter))
+	for k, v := range passed {
+		dataMap[k] = v
+	}
 	for k, v := range frontMatter {
 		dataMap[k] = v
 	}
@@ -228,7 +233,12 @@ func (v *Vue) RenderFragment(w io.Writer, filename string, data any) error {
 	}
 
 	// Merge front-matter data into the provided data (front-matter is authoritative)
-	dataMap := toMapData(data)
+	// Merge into a fresh map: the caller's data must not be modified.
+	passed := toMapData(data)
+	dataMap := make(map[string]any, len(passed)+len(frontMatter))
+	for k, v := range passed {
+		dataMap[k] = v
+	}
 	for k, v := range frontMatter {
 		dataMap[k] = v
 	}
